@@ -303,7 +303,7 @@ def known_filter(prop, pid, fails, known):
 
 
 # translators whose every definition is translated on the pinned text: an UNSUPPORTED note is a change of the source
-STRICT_TRANSLATORS = ("t9_weaver", "t10_process", "t11_match", "t12_rfaparams", "t13_interval")
+STRICT_TRANSLATORS = ("t9_weaver", "t10_process", "t11_match", "t12_rfaparams", "t13_interval", "t14_weaverio", "t15_smoothglue")
 
 
 def main(argv=None):
